@@ -27,6 +27,7 @@ func (e *kvElection) heartbeatLoop(ctx context.Context) {
 	for {
 		select {
 		case <-ctx.Done():
+			e.handleRunCancelled(ctx)
 			return
 		case <-ticker.C:
 			if !e.IsLeader() {
@@ -112,6 +113,7 @@ func (e *kvElection) heartbeatLoop(ctx context.Context) {
 			var updateErr error
 			select {
 			case <-ctx.Done():
+				e.handleRunCancelled(ctx)
 				return
 			case <-time.After(updateTimeout):
 				updateErr = NewTimeoutError("heartbeat update", updateTimeout, nil)
@@ -237,6 +239,36 @@ func (e *kvElection) handleHeartbeatFailure(err error) {
 		log.Info("leader_demoted",
 			append(e.logWithContext(e.electionContext()),
 				zap.String("reason", "heartbeat_failure"),
+			)...,
+		)
+		onDemote()
+	}
+}
+
+// handleRunCancelled ends the term when the refreshes end because the run's
+// context is done. After Stop the election is STOPPED and demote leaves it
+// alone (Stop runs OnDemote itself). Otherwise the context given to Start was
+// cancelled by its caller: nothing refreshes the record any more, so the
+// instance must not keep reporting leadership.
+func (e *kvElection) handleRunCancelled(ctx context.Context) {
+	if e.electionContext() != ctx {
+		// a later Start has installed its own context
+		return
+	}
+
+	if !e.becomeFollower() {
+		return
+	}
+
+	e.mu.RLock()
+	onDemote := e.onDemote
+	e.mu.RUnlock()
+
+	if onDemote != nil {
+		log := e.getLogger()
+		log.Info("leader_demoted",
+			append(e.logWithContext(ctx),
+				zap.String("reason", "context_cancelled"),
 			)...,
 		)
 		onDemote()
